@@ -13,7 +13,7 @@ const SPEC: Spec = Spec {
     ],
     bounds_quick: "R1 x < 2^14 and |x - 2^64| <= 256 x 15 degrees; R2 r^n, r^n+-1 for 11 bases x 12 degrees while r^n < 2^6000, each with every degree of the list + 1000 + u32::MAX; R3 2^k, 2^k+-1 for every k in 60..=2300 x degrees {2,3,4,5,7,11}; R4 negatives / panics",
     bounds_thorough: "R1 x < 2^17 and |x - 2^64| <= 4096; R2 while r^n < 2^12000; R3 every k in 60..=5000; R4",
-    hang_secs: 300,
+    hang_secs: 120,
     probes: Some(probes),
     max_workers: 16,
 };
